@@ -703,7 +703,9 @@ func matchesCallbackPath(log telemetry.Logger, config *oidcv1.OIDCConfig, httpRe
 	confPort := confURI.Port()
 	confHost := confURI.Hostname()
 	confScheme := confURI.Scheme
-	confPath := confURI.Path
+	// The request path is compared as received (still percent-encoded), so the configured path
+	// must be taken in its encoded form as well.
+	confPath := confURI.EscapedPath()
 	confHostAndPort := confHost
 	if confPort != "" {
 		confHostAndPort += ":" + confPort
